@@ -16,7 +16,7 @@ def run(ctx):
     quick = ctx.tier == "quick"
     core.design_check(ctx, "Gen_Expr.tla", "Expr_laws.cfg", timeout=900)
     fams = {}
-    for fam in ("flat", "prec", "for", "tmpl"):
+    for fam in ("flat", "prec", "for", "tmpl", "flush"):
         fams[fam] = core.generate(ctx, "Gen_Expr.tla", "Gen_Expr_%s.cfg" % fam, 0, 0, ctx.seed, bfs=True, timeout=900)
     rand = []
     for i in range(1 if quick else 10):
@@ -25,6 +25,7 @@ def run(ctx):
     if quick:   # every operator/leaf pair is kept in thorough; quick keeps a seeded third of the flat family
         rng = random.Random(ctx.seed)
         fams["flat"] = [b for b in fams["flat"] if rng.random() < 0.34]
+        fams["flush"] = [b for b in fams["flush"] if rng.random() < 0.15]
     ctx.say("  trees: " + ", ".join("%d %s" % (len(v), k) for k, v in fams.items()) + ", %d random (each in 2 variable environments, printed with minimal / redundant parentheses / no spaces / heredoc)" % len(rand))
     trees = sum(fams.values(), []) + rand
     want = {}
